@@ -311,6 +311,7 @@ func GroupByGID(root *Node, gid int) *Node {
 // PrintOpts selects dialect-dependent spellings.
 type PrintOpts struct {
 	GoSyntax bool // restrict to spellings Go's regexp also accepts
+	RawX     bool // print x-mode whitespace / # comments raw even where x is not in effect (C18)
 }
 
 type printer struct {
@@ -617,9 +618,9 @@ func (p *printer) node(n *Node) {
 		p.w(")")
 	case KComment:
 		switch {
-		case n.Sp == 1 && n.E.X:
+		case n.Sp == 1 && (n.E.X || p.po.RawX):
 			p.w(" ")
-		case n.Sp == 2 && n.E.X:
+		case n.Sp == 2 && (n.E.X || p.po.RawX):
 			p.w("#" + n.Text + "\n")
 		default:
 			p.w("(?#" + n.Text + ")")
